@@ -22,8 +22,9 @@ let run_case oc id (nodes : pnode list) (roots : int list) =
       Printf.fprintf oc "P %s %d %d %d %s\n" id r (b2i c.c_undef) (b2i c.c_contra) (terms_str c)) conj;
     List.iter (fun (ra, a) -> List.iter (fun (rb, b) ->
       let cb = b2i (cannotBothBeTrue a b) in
-      Printf.fprintf oc "Q %s %d %d %d%d%d%d%d\n" id ra rb (b2i (isEqualTo a b)) (b2i (isNegationOf a b))
-        (b2i (isSubsetOf a b)) cb cb) conj) conj;
+      let same = b2i (conj_same a b) in
+      Printf.fprintf oc "Q %s %d %d %d%d%d%d%d%d%d\n" id ra rb (b2i (isEqualTo a b)) (b2i (isNegationOf a b))
+        (b2i (isSubsetOf a b)) cb cb same same) conj) conj;
     (* build is applied successively to the growing graph, as the harness does on the one circuit *)
     let g = ref g in
     List.iter (fun (r, c) ->
